@@ -403,15 +403,26 @@ class ParserSim:
                 yield ["edit", rng.randrange(64), rng.choice(EDITS), rng.randrange(64)]
 
     def shrink_ops(self, cfg, ops):
-        # shorter texts
+        # shorter texts: drop chunks (large first), consistently across ops using the same text
+        texts = []
+        for op in ops:
+            if op[0] in ("parse", "tokenize") and op[1] not in texts:
+                texts.append(op[1])
+        for t in sorted(texts, key=len, reverse=True):
+            n = len(t)
+            size = max(1, n // 2)
+            while size >= 1:
+                for a in range(0, n, size):
+                    cand = t[:a] + t[a + size:]
+                    if cand == t:
+                        continue
+                    yield [[o[0], cand] if (o[0] in ("parse", "tokenize") and o[1] == t) else o
+                           for o in ops]
+                size //= 2
+        # simpler edits
         for i, op in enumerate(ops):
-            if op[0] in ("parse", "tokenize") and len(op[1]) > 1:
-                t = op[1]
-                for cand in (t[: len(t) // 2], t[len(t) // 2:], t[1:], t[:-1]):
-                    if cand != t:
-                        same = [[o[0], cand] if (o[0] in ("parse", "tokenize") and o[1] == t) else o
-                                for o in ops]
-                        yield same
+            if op[0] == "edit" and (op[1] != 0 or op[3] != 0):
+                yield ops[:i] + [["edit", 0, op[2], 0]] + ops[i + 1:]
 
     # ------------------------------------------------------------------
     def rule_text(self, prop):
